@@ -435,7 +435,7 @@ def gen_cases(rng, tier, n):
                     case["entry"] = "function"
                 cases.append(case)
     return (cases + history_cases(rng, max(20, n // 25)) + closed_cases(rng, max(40, n // 8)) + fixed_cases()
-            + map_cases(rng, max(40, n // 10)) + mapfield_cases(rng, max(60, n // 10)) + ku_cases(rng, max(30, n // 16)) + des_cases(rng, max(40, n // 12)) + mi_cases(rng, max(60, n // 8)))
+            + map_cases(rng, max(40, n // 10)) + fc_cases(rng, max(60, n // 12)) + mapfield_cases(rng, max(60, n // 10)) + ku_cases(rng, max(30, n // 16)) + des_cases(rng, max(40, n // 12)) + mi_cases(rng, max(60, n // 8)))
 
 
 def _flat(name, fields, mapper, opt=()):
@@ -711,6 +711,8 @@ def find_cd(cd, name):
 def run_impl(case):
     if case.get("oracle") == "map":
         return run_map(case)
+    if case.get("oracle") == "fc":
+        return run_fc(case)
     cd = case["cls"]
     registry = {}
     cls = build_class(cd, registry)
@@ -881,6 +883,11 @@ def mapper_kinds(cd, acc):
 
 
 def tags(case, impl, model):
+    if case.get("oracle") == "fc":
+        r = impl.get("deser", {})
+        return ["stream=functioncall(oracle-only)", "fc.where=" + case["where"], f"fc.own={case['own']}",
+                f"camel={case['camel']}", "fc.args=" + ("none" if not case["args"] else str(len(case["args"]))),
+                "fc.roundtrip=" + ("equal" if r.get("equal") else "different")]
     if case.get("oracle") == "map":
         r = impl.get("deser", {})
         return ["stream=map-values(oracle-only)", f"camel={case['camel']}", "holder=" + case["spec"]["holder"],
@@ -947,6 +954,9 @@ def nontrivial(case):
 
 
 def describe(case, impl, model):
+    if case.get("oracle") == "fc":
+        return {"stream": "FunctionCall mapper values (oracle-only)", "case": {k: v for k, v in case.items() if k != "vals"},
+                "real_document": impl.get("doc"), "real_deserialized": impl.get("deser")}
     if case.get("oracle"):
         return {"stream": "map-values (oracle-only)", "spec": case["spec"], "camel": case["camel"],
                 "real_document": impl.get("doc"), "real_deserialized": impl.get("deser")}
@@ -1160,4 +1170,125 @@ def judge_map(case, impl):
             key = "keep-undefined-leak:deserialize_map"
         fails.append((key, "deserialize(serialize(x)) != x for a class holding structures as Map values: document "
                       + json.dumps(impl["doc"])[:300] + " gave " + json.dumps(r)[:300] + " for " + desc))
+    return None, fails
+
+# ------------------------------------------------------------------ oracle-only stream: FunctionCall mapper values
+# (no Lean counterpart: the model is rename-only.  Documented behaviour, simple shapes only: one dict mapper, a
+#  FunctionCall on one field with no args or with field-name args, optional rename of ANOTHER field, optionally one
+#  level down under "<field>._mapper", given explicitly or as the class's own _serialization_mapper)
+
+FC_FUNCS = {"times2": lambda x: x * 2, "half": lambda x: x // 2, "plus5": lambda x: x + 5, "minus5": lambda x: x - 5,
+            "add": lambda x, y: x + y, "sub": lambda x, y: x - y}
+FC_INVERSE = {"times2": "half", "plus5": "minus5", "add": "sub"}
+
+
+def fc_cases(rng, n):
+    out = []
+    for _ in range(n):
+        names = rng.sample(["a", "b", "c_d", "e_f", "g"], 3)
+        fn = rng.choice(["times2", "plus5", "add"])
+        target, other = names[0], names[1]
+        out.append({"oracle": "fc", "names": names, "fn": fn, "target": target,
+                    "args": [target, other] if fn == "add" else rng.choice([None, [target]]),
+                    "rename": rng.choice([None, None, [names[2], "RR" + names[2].replace("_", "")]]),
+                    "where": rng.choice(["top", "top", "nested", "array"]),
+                    "own": rng.random() < 0.35, "camel": rng.random() < 0.35,
+                    "vals": [rng.choice([0, 1, 2, 4, 6, 10]) for _ in range(9)]})
+    return out
+
+
+def run_fc(case):
+    from typedpy import FunctionCall
+    names, fn, target = case["names"], case["fn"], case["target"]
+    camel, where = case["camel"], case["where"]
+
+    def fc(name):
+        return FunctionCall(func=FC_FUNCS[name], args=case["args"]) if case["args"] else FunctionCall(func=FC_FUNCS[name])
+
+    def flat(direction):
+        m = {target: fc(fn if direction == "ser" else FC_INVERSE[fn])}
+        if case["rename"]:
+            m[case["rename"][0]] = case["rename"][1]
+        return m
+
+    _counter[0] += 1
+    ns = {n: Integer for n in names}
+    own = case["own"] and where == "top"
+    if own:
+        ns["_serialization_mapper"] = flat("ser")
+        ns["_deserialization_mapper"] = flat("des")
+    F = StructMeta(f"F{_counter[0]}", (Structure,), ns)
+    vals = iter(case["vals"] * 3)
+
+    def f_inst():
+        return F(**{n: next(vals) for n in names})
+
+    if where == "top":
+        cls, x = F, f_inst()
+        ser_m, des_m = (None, None) if own else (flat("ser"), flat("des"))
+    else:
+        holder = F if where == "nested" else Array[F]
+        cls = StructMeta(f"O{_counter[0]}", (Structure,), {"n_x": holder, "z": Integer})
+        x = cls(n_x=f_inst() if where == "nested" else [f_inst(), f_inst()], z=next(vals))
+        ser_m, des_m = {"n_x._mapper": flat("ser")}, {"n_x._mapper": flat("des")}
+
+    from typedpy.serialization.mappers import _convert_to_camelcase
+
+    def key(n):
+        if case["rename"] and n == case["rename"][0]:
+            return case["rename"][1]
+        return _convert_to_camelcase(n) if camel else n
+
+    def f_doc(f):
+        d = {}
+        for n in names:
+            v = getattr(f, n)
+            if n == target:
+                argv = [getattr(f, a) for a in case["args"]] if case["args"] else [v]
+                v = FC_FUNCS[fn](*argv)
+            d[key(n)] = v
+        return d
+
+    if where == "top":
+        spec = f_doc(x)
+    else:
+        spec = {key("n_x"): f_doc(x.n_x) if where == "nested" else [f_doc(e) for e in x.n_x], "z": x.z}
+    out = {"spec_doc": spec}
+    try:
+        doc = (Serializer(x, mapper=ser_m) if ser_m else Serializer(x)).serialize(camel_case_convert=camel)
+        out["doc"] = doc
+        doc_f = serialize(x, mapper=ser_m, camel_case_convert=camel)
+        if doc_f != doc:
+            out["ser_paths_differ"] = [doc, doc_f]
+    except Exception as e:
+        out["ser_err"] = err_name(e)
+        out["ser_msg"] = str(e)[:300]
+        return out
+    # the inverse function on the way back: add(a, b) is undone by sub(doc[a], doc[b]) because b is written as it is
+    try:
+        kw = {"camel_case_convert": camel}
+        if des_m:
+            kw["mapper"] = des_m
+        y = Deserializer(cls, **kw).deserialize(doc, keep_undefined=False)
+        out["deser"] = {"ok": True, "equal": bool(y == x), "repr": repr(y)[:200]}
+    except Exception as e:
+        out["deser"] = {"err": err_name(e), "msg": str(e)[:300]}
+    return out
+
+
+def judge_fc(case, impl):
+    fails = []
+    desc = json.dumps({k: v for k, v in case.items() if k not in ("oracle", "vals")})[:400]
+    if "ser_err" in impl:
+        return None, [(f"functioncall:serialize-raises:{impl['ser_err']}", f"{impl.get('ser_msg')} for {desc}")]
+    if "ser_paths_differ" in impl:
+        fails.append(("functioncall:serializer-paths-differ", json.dumps(impl["ser_paths_differ"])[:300] + " for " + desc))
+    if impl["doc"] != impl["spec_doc"]:
+        fails.append(("functioncall:document", "a FunctionCall mapper value must write func(value | named attributes) under the "
+                      "field's key and leave the other keys to the renames: real " + json.dumps(impl["doc"])[:300]
+                      + " specified " + json.dumps(impl["spec_doc"])[:300] + " for " + desc))
+    r = impl.get("deser", {})
+    if not (r.get("ok") and r.get("equal")):
+        fails.append(("functioncall:roundtrip", "deserializing with the inverse FunctionCall does not give the instance back: "
+                      "document " + json.dumps(impl["doc"])[:300] + " gave " + json.dumps(r)[:300] + " for " + desc))
     return None, fails
